@@ -226,6 +226,10 @@ func Main(t *testing.T, hs ...*Harness) {
 	seenClass := map[string]bool{}
 	known := loadKnown(h.Name)
 	knownSeen := map[int]bool{}
+	raceMarks := os.Getenv("HYSIM_RACE") != ""
+	if raceMarks {
+		fmt.Fprintf(os.Stderr, "HYSIM-RUN warmup 0\n")
+	}
 	h.warmUp(t)
 	for i := lo; i < hi; i++ {
 		if time.Since(t0) > budget {
@@ -234,6 +238,10 @@ func Main(t *testing.T, hs ...*Harness) {
 		seed := RunSeed(base, i)
 		if prog != nil {
 			fmt.Fprintf(prog, "%d %d\n", i, seed)
+		}
+		if raceMarks {
+			// race-detector builds: reports go to stderr; this line attributes them to a run
+			fmt.Fprintf(os.Stderr, "HYSIM-RUN %d %d\n", i, seed)
 		}
 		sc := h.Gen(NewRand(seed, StreamGen), tier)
 		if prog != nil && os.Getenv("HYSIM_SHOWSCRIPT") != "" {
